@@ -786,4 +786,173 @@ theorem run_inv (inputs : List Input) (s : State) (h : Inv s) (hp : ∀ inp ∈ 
     simp only [run]
     exact ih _ (iter_inv s inp h (hp inp (by simp))) (fun x hx => hp x (List.mem_cons_of_mem _ hx))
 
+/-! ### `check_probing` per probe -/
+
+theorem checkProbing_sends {r : Registry} {now : Nat} {n : BList} {p : Probe} (hm : (n, p) ∈ r.probing)
+    (ha : p.action now = .send) :
+    (n, TYPE_ANY) ∈ (checkProbing r now).questions ∧ (∀ a ∈ p.records, a ∈ (checkProbing r now).authorities) ∧
+    (now + 250) ∈ (checkProbing r now).timers ∧ (n, { p with next := now + 250 }) ∈ (checkProbing r now).reg.probing := by
+  have hf : (n, p) ∈ r.probing.filter (fun e => e.2.action now == .send) := by
+    simp [List.mem_filter, hm, ha]
+  refine ⟨?_, ?_, ?_, ?_⟩
+  · simp only [checkProbing, List.mem_map]
+    exact ⟨(n, p), hf, rfl⟩
+  · intro a har
+    simp only [checkProbing, List.mem_flatMap]
+    exact ⟨(n, p), hf, har⟩
+  · simp only [checkProbing, List.mem_map]
+    exact ⟨(n, p), hf, trivial⟩
+  · simp only [checkProbing, List.mem_map]
+    exact ⟨(n, p), hm, by simp [Probe.step, ha]⟩
+
+theorem checkProbing_question {r : Registry} {now : Nat} {n : BList} {t : Nat}
+    (h : (n, t) ∈ (checkProbing r now).questions) : t = TYPE_ANY ∧ ∃ p, (n, p) ∈ r.probing ∧ p.action now = .send := by
+  simp only [checkProbing, List.mem_map, List.mem_filter] at h
+  obtain ⟨⟨n', p⟩, ⟨hm, ha⟩, heq⟩ := h
+  obtain ⟨h1, h2⟩ := Prod.mk.inj heq
+  subst h1
+  exact ⟨h2.symm, p, hm, by simpa using ha⟩
+
+theorem checkProbing_expired {r : Registry} {now : Nat} {n : BList} (h : n ∈ (checkProbing r now).expired) :
+    ∃ p, (n, p) ∈ r.probing ∧ now ≥ p.next ∧ now ≥ p.start + 750 := by
+  simp only [checkProbing, List.mem_map, List.mem_filter] at h
+  obtain ⟨⟨n', p⟩, ⟨hm, ha⟩, heq⟩ := h
+  subst heq
+  refine ⟨p, hm, ?_⟩
+  simp only [Probe.action, beq_iff_eq] at ha
+  split at ha
+  · split at ha
+    · constructor <;> assumption
+    · cases ha
+  · cases ha
+
+/-! ### what `prepare_announce` leaves in the registry -/
+
+/-- the record is active, or a matching record is being probed under its name with the
+    service waiting for that probe -/
+def Held (r : Registry) (a : RR) (svcName : BList) : Prop :=
+  r.isActive a = true ∨
+  ∃ p, alookup a.getName r.probing = some p ∧ p.records.any (a.matchesRR ·) = true ∧ svcName ∈ p.waiting
+
+theorem RR.matchesRR_self (a : RR) : a.matchesRR a = true := by simp [RR.matchesRR]
+
+theorem probingDoneReg_held (r : Registry) (a : RR) (n : BList) (t : Nat) : Held (r.probingDoneReg a n t) a n := by
+  unfold Registry.probingDoneReg
+  split
+  · exact Or.inl (by assumption)
+  · right
+    simp only [Registry.probeInsert, alookup_aset_self]
+    refine ⟨_, rfl, ?_, ?_⟩
+    · split
+      · assumption
+      · simp only [List.any_eq_true]
+        exact ⟨a, (mem_insertRR a a _).mpr (Or.inl rfl), RR.matchesRR_self a⟩
+    · split <;> exact (mem_sinsert n n _).mpr (Or.inl rfl)
+
+theorem probingDoneReg_keeps_held (r : Registry) (a b : RR) (n : BList) (t : Nat) (h : Held r b n) :
+    Held (r.probingDoneReg a n t) b n := by
+  unfold Registry.probingDoneReg
+  split
+  · exact h
+  · rcases h with h | ⟨p, hl, hany, hw⟩
+    · exact Or.inl (by simpa [Registry.isActive, Registry.probeInsert] using h)
+    · right
+      by_cases e : b.getName = a.getName
+      · simp only [Registry.probeInsert, e, alookup_aset_self]
+        rw [e] at hl
+        refine ⟨_, rfl, ?_, ?_⟩
+        · simp only [hl, Option.getD_some]
+          split
+          · exact hany
+          · simp only [List.any_eq_true] at hany ⊢
+            obtain ⟨x, hx, hmx⟩ := hany
+            exact ⟨x, (mem_insertRR a x _).mpr (Or.inr hx), hmx⟩
+        · simp only [hl, Option.getD_some]
+          split <;> exact (mem_sinsert n n _).mpr (Or.inr hw)
+      · refine ⟨p, ?_, hany, hw⟩
+        simp only [Registry.probeInsert]
+        rw [alookup_aset_ne _ _ _ _ e]
+        exact hl
+
+theorem foldl_probingDone_held (l : List RR) (r : Registry) (n : BList) (t : Nat) :
+    ∀ a ∈ l, Held (l.foldl (fun r a => r.probingDoneReg a n t) r) a n := by
+  induction l generalizing r with
+  | nil => intro a ha; simp at ha
+  | cons x l ih =>
+    intro a ha
+    simp only [List.foldl_cons]
+    rcases List.mem_cons.mp ha with rfl | hin
+    · exact foldl_inv (fun reg => Held reg a n) _ l _ (probingDoneReg_held r a n t)
+        (fun b y _ hb => probingDoneReg_keeps_held b y a n t hb)
+    · exact ih _ a hin
+
+/-- After `prepare_announce` for a service that requires probing, every unique record of
+    the service (SRV, TXT, each in-subnet address of the family) is active or sits in the
+    probe of its name, and the service waits for that probe. -/
+theorem prepare_registers_all (s : Service) (i : MyIntf) (r : Registry) (v4 : Bool) (now j : Nat)
+    (hp : s.probe = true) (hne : addrsOn s i v4 ≠ []) :
+    ∀ a ∈ uniqueRecords s i r v4, Held (prepareAnnounceReg s i r v4 now j) a s.fullname := by
+  unfold prepareAnnounceReg
+  simp only [hne, hp, ↓reduceIte, Bool.not_true, Bool.false_eq_true]
+  exact foldl_probingDone_held _ r s.fullname (now + j)
+
+/-- a probe that is created starts (and first sends) at the given time; a record that joins an
+    existing probe leaves the probe's times as they are (it inherits the probe's age) -/
+theorem probeInsert_times (r : Registry) (a : RR) (n : BList) (t : Nat) :
+    ∃ p, alookup a.getName (r.probeInsert a n t).probing = some p ∧
+      (alookup a.getName r.probing = none → p.start = t ∧ p.next = t) ∧
+      (∀ q, alookup a.getName r.probing = some q → p.start = q.start ∧ p.next = q.next) := by
+  simp only [Registry.probeInsert, alookup_aset_self]
+  refine ⟨_, rfl, ?_, ?_⟩
+  · intro h
+    simp only [h, Option.getD_none]
+    split <;> exact ⟨rfl, rfl⟩
+  · intro q h
+    simp only [h, Option.getD_some]
+    split <;> exact ⟨rfl, rfl⟩
+
+/-! ### a daemon that has announced nothing on an interface answers nothing there -/
+
+theorem foldl_id {α β} (f : β → α → β) (l : List α) (b : β) (h : ∀ b a, a ∈ l → f b a = b) : l.foldl f b = b := by
+  induction l generalizing b with
+  | nil => rfl
+  | cons a l ih =>
+    simp only [List.foldl_cons]
+    rw [h b a (by simp)]
+    exact ih b (fun b x hx => h b x (List.mem_cons_of_mem _ hx))
+
+theorem answerQuestion_silent (known : List Wire.Rec) (services : List (BList × Service)) (i : MyIntf) (reg : Registry)
+    (v4 : Bool) (r : Resp) (q : Wire.Question) (h : ∀ e ∈ services, e.2.announcedOn i.index = false) :
+    answerQuestion known services i reg v4 r q = r := by
+  unfold answerQuestion
+  have hptr : ∀ (qn : BList) (r : Resp), services.foldl (fun r e => answerPtr known i reg v4 qn r e.2) r = r :=
+    fun qn r => foldl_id _ _ _ (fun b e he => by simp [answerPtr, h e he])
+  have haddr : ∀ (qn : BList) (qt : Nat) (r : Resp), services.foldl (fun r e => answerAddr known i reg qn qt r e.2) r = r :=
+    fun qn qt r => foldl_id _ _ _ (fun b e he => by simp [answerAddr, h e he])
+  have hinst : ∀ (r : Resp), answerInstance known services i reg v4 q.name q.ty r = r := by
+    intro r
+    unfold answerInstance
+    split
+    · rfl
+    · rename_i k svc hf
+      have := h _ (List.mem_of_find?_eq_some hf)
+      simp [this]
+  split
+  · exact hptr _ _
+  · simp only []
+    split
+    · rw [haddr, hinst]
+    · exact hinst r
+
+theorem handleQuery_silent (s : State) (now : Nat) (p : RxPkt) (i : MyIntf)
+    (h : ∀ e ∈ s.services, e.2.announcedOn i.index = false) : (handleQuery s now p i).2 = [] := by
+  unfold handleQuery
+  split
+  · rfl
+  · rename_i reg _
+    have : p.msg.questions.foldl (answerQuestion p.msg.answers s.services i reg p.srcV4) {} = ({} : Resp) :=
+      foldl_id (answerQuestion p.msg.answers s.services i reg p.srcV4) _ _
+        (fun b q _ => answerQuestion_silent _ _ _ _ _ b q h)
+    simp [this]
+
 end Mdns.Responder
